@@ -126,21 +126,23 @@ class SequenceMatcher(BaseMatcher):
                 " Use ValueMatcher with empty tuple instead."
             )
 
+        # The trailing any matcher stays in `matchers`, so that the init fields
+        # fully describe the matcher and dataclasses.replace keeps the tail
         if isinstance(self.matchers[-1], AnyMatcher):
             object.__setattr__(self, "tail_matcher", self.matchers[-1])
-            object.__setattr__(self, "matchers", self.matchers[:-1])
 
     def _match(self, value: Any, ctx: _Vars) -> _MatchRes:
         if not isinstance(value, Sequence):
             return (False, {})
 
         any_tail = self.tail_matcher is not None
+        matchers = self.matchers[:-1] if any_tail else self.matchers
 
         # If we have any tail, we can match sequence of any length
         # but if we don't have any tail, we can exit early if the lengths
         # don't match
-        if (not any_tail and len(value) != len(self.matchers)) or (
-            any_tail and len(value) < len(self.matchers)
+        if (not any_tail and len(value) != len(matchers)) or (
+            any_tail and len(value) < len(matchers)
         ):
             return (False, {})
 
@@ -150,7 +152,7 @@ class SequenceMatcher(BaseMatcher):
         ret_vars: dict[str, Any] = {}
 
         # Start with non-tail matchers
-        for matcher, val in zip(self.matchers, value, strict=False):
+        for matcher, val in zip(matchers, value, strict=False):
             ok, new_vars = matcher.match(val, local_ctx)
             if not ok:
                 return (False, {})
@@ -161,7 +163,7 @@ class SequenceMatcher(BaseMatcher):
         # If we have any tail, match it against the rest of the sequence
         if self.tail_matcher:
             # Any always matches so we only doing this for possible captures
-            _, new_vars = self.tail_matcher.match(value[len(self.matchers) :], local_ctx)
+            _, new_vars = self.tail_matcher.match(value[len(matchers) :], local_ctx)
 
             ret_vars.update(new_vars)
 
